@@ -77,7 +77,10 @@ impl<'a> Remote<'a> {
         }
         #[cfg(feature = "verif")]
         crate::verif::point(12);
-        if !notified && let Some(ref waker) = shared.waker {
+        // Notify after the push even if we already did while the queue was full: the
+        // runtime may have handled that notification, drained the queue and gone back to
+        // sleep before this id was in it.
+        if let Some(ref waker) = shared.waker {
             waker.wake_by_ref();
         }
 
